@@ -49,8 +49,8 @@ static MessageRef MakeFilter(int f)
 }
 static reftree::Filter RefFilter(int f) { return f == FNONE ? reftree::Filter() : reftree::Filter(f == FEQ1 ? reftree::Filter::EQ : reftree::Filter::NE, 1); }
 
-enum Kind { K_SET, K_SET2, K_RM, K_BATCH_SET_RM, K_BATCH_SET_SET, K_SUB, K_UNSUB, K_UNSUB_ALL, K_MAXITEMS, K_SELF, K_ARRIVE, K_LEAVE };
-struct Op { Kind kind; int role; std::string path; int payload; int pat; int filt; bool quiet; bool on; std::string name; };
+enum Kind { K_SET, K_SET2, K_RM, K_BATCH_SET_RM, K_BATCH_SET_SET, K_SUB, K_SUB2, K_UNSUB, K_UNSUB_ALL, K_MAXITEMS, K_SELF, K_ARRIVE, K_LEAVE };
+struct Op { Kind kind; int role; std::string path; int payload; int pat; int filt; bool quiet; bool on; std::string name; int pat2, filt2; Op() : pat2(0), filt2(0) {} };   // pat2/filt2: second SUBSCRIBE field of K_SUB2
 
 // enabledness of an operation depends only on this much (kept eagerly, see "lazy execution" below)
 struct Shadow { bool attached[NCLIENT]; std::map<std::string, int> subs[NCLIENT]; Shadow() { for (int i = 0; i < NCLIENT; i++) attached[i] = false; } };
@@ -112,6 +112,12 @@ struct MirrorModel {
       Op o; o.kind = K_SUB; o.role = role; o.pat = pat; o.filt = filt; o.quiet = quiet; o.on = false; o.payload = 0;
       o.name = std::string(1, kRoleCh[role]) + ": SETPARAMETERS SUBSCRIBE:" + kPat[pat] + kFiltName[filt] + (quiet ? " quietly" : ""); AddOp(o);
    }
+   // ONE SETPARAMETERS Message carrying TWO subscriptions (field order = the order given); enabled only while the session holds neither
+   void Sub2Op(int role, int pat, int filt, int pat2, int filt2)
+   {
+      Op o; o.kind = K_SUB2; o.role = role; o.pat = pat; o.filt = filt; o.pat2 = pat2; o.filt2 = filt2; o.quiet = false; o.on = false; o.payload = 0;
+      o.name = std::string(1, kRoleCh[role]) + ": SETPARAMETERS SUBSCRIBE:" + kPat[pat] + kFiltName[filt] + " + SUBSCRIBE:" + kPat[pat2] + kFiltName[filt2] + " (one Message)"; AddOp(o);
+   }
    void UnsubOp(int role, int pat)
    {
       Op o; o.kind = K_UNSUB; o.role = role; o.pat = pat; o.filt = 0; o.quiet = false; o.on = false; o.payload = 0;
@@ -128,6 +134,7 @@ struct MirrorModel {
       DataOps(RA);
       for (int p = 0; p < 6; p++) for (int f = 0; f < 3; f++) SubOp(RB, p, f, false);
       for (int p = 0; p < 2; p++) for (int f = 0; f < 3; f++) SubOp(RB, p, f, true);
+      Sub2Op(RB, 0, 1, 1, 0); Sub2Op(RB, 0, 2, 3, 0); Sub2Op(RB, 1, 0, 0, 1); Sub2Op(RB, 4, 2, 5, 1);
       for (int p = 0; p < 6; p++) UnsubOp(RB, p);
       SimpleOp(K_UNSUB_ALL, RB, false, "REMOVEPARAMETERS SUBSCRIBE:*");
       SimpleOp(K_MAXITEMS, RB, true, "SETPARAMETERS max-update-items=1");
@@ -308,6 +315,7 @@ struct MirrorModel {
       if (o.kind == K_ARRIVE) return !sh.attached[r];
       if (!sh.attached[r]) return false;
       if (o.kind == K_SUB) { std::map<std::string, int>::const_iterator it = sh.subs[r].find(kPat[o.pat]); if (o.quiet && it != sh.subs[r].end() && it->second == o.filt) return false; }   // a quiet re-issue with the same filter asks the server for nothing
+      if (o.kind == K_SUB2) return !sh.subs[r].count(kPat[o.pat]) && !sh.subs[r].count(kPat[o.pat2]);
       if (o.kind == K_UNSUB || o.kind == K_UNSUB_ALL) return !sh.subs[r].empty();   // (removing a subscription while holding none: nothing to observe)
       return true;
    }
@@ -318,6 +326,7 @@ struct MirrorModel {
          case K_ARRIVE: sh.attached[r] = true; sh.subs[r].clear(); break;
          case K_LEAVE: sh.attached[r] = false; sh.subs[r].clear(); break;
          case K_SUB: sh.subs[r][kPat[o.pat]] = o.filt; break;
+         case K_SUB2: sh.subs[r][kPat[o.pat]] = o.filt; sh.subs[r][kPat[o.pat2]] = o.filt2; break;
          case K_UNSUB: sh.subs[r].erase(kPat[o.pat]); break;
          case K_UNSUB_ALL: sh.subs[r].clear(); break;
          default: break;
@@ -373,6 +382,11 @@ struct MirrorModel {
             else if (existing >= 0) opKind = "resubscribe-same-filter";
             else opKind = o.quiet ? "subscribe-quiet" : "subscribe";
             break; }
+         case K_SUB2: {
+            MessageRef m = l1::SetParameters(); l1::AddSubscribe(m, kPat[o.pat], MakeFilter(o.filt)); l1::AddSubscribe(m, kPat[o.pat2], MakeFilter(o.filt2));
+            W.w.Inject(r, m);
+            W.ref.Subscribe(r, kPat[o.pat], RefFilter(o.filt)); W.ref.Subscribe(r, kPat[o.pat2], RefFilter(o.filt2));
+            opKind = "subscribe-two-in-one-message"; break; }
          case K_UNSUB: {
             const std::string name = kPat[o.pat];
             W.w.Inject(r, l1::Unsubscribe(name));
